@@ -213,7 +213,15 @@ def run_case(case):
         # ---- read back through the same kind of target
         if tgt == "bytesio":
             raw = bio.getvalue()
-            src = io.BytesIO(raw)
+            # the caller's stream as the write session left it, at its end, or a fresh one
+            k = case.get("seed", 0) % 3
+            if k == 0:
+                src = bio
+            elif k == 1:
+                src = bio
+                src.seek(0, 2)
+            else:
+                src = io.BytesIO(raw)
         elif tgt == "buffered":
             fobj.close()
             src = open(path, "rb")
